@@ -1,0 +1,22 @@
+//go:build verif
+
+package pool
+
+import (
+	"github.com/buildbarn/bb-storage/pkg/filesystem"
+)
+
+// VerifBlockDeviceBackedFileState returns a copy of the sector list
+// (0 = hole) and the size of a file created by
+// NewBlockDeviceBackedFilePool(). It is only used by the verification
+// harness in /verif to validate, on the implementation itself, that
+// the sectors referenced by all files are pairwise distinct and are
+// exactly the sectors handed out by the SectorAllocator. The third
+// result is false if the file is of a different type.
+func VerifBlockDeviceBackedFileState(f filesystem.FileReadWriter) ([]uint32, uint64, bool) {
+	bf, ok := f.(*blockDeviceBackedFile)
+	if !ok {
+		return nil, 0, false
+	}
+	return append([]uint32(nil), bf.sectors...), bf.sizeBytes, true
+}
